@@ -60,12 +60,15 @@ class DirHandler(BaseHandler):
                     self.config,
                     vfs=self.vfs,
                 )
-            except GopherExceptions.FileNotFound:
+                fileentry = handler.getentry()
+            except (GopherExceptions.FileNotFound, OSError):
                 # Nothing can serve this one (dangling symlink, socket, FIFO,
                 # vanished since the listdir, name rejected by the security
-                # check).  Leave it out rather than failing the whole menu.
+                # check), or the handler that takes it cannot read it while
+                # building the entry (HTML title of an unreadable file, a
+                # file gone since the stat).  Leave it out rather than
+                # failing the whole menu.
                 continue
-            fileentry = handler.getentry()
             self.prep_entriesappend(file, handler, fileentry)
 
     def prep_entriesappend(
